@@ -151,7 +151,7 @@ PARTS = {
 
 
 def vacuity(merged, tier):
-    for cls, lim in (("unequal_shares", 0.7), ("prices_differ", 0.7), ("prices_moved", 0.5)):
+    for cls, lim in (("unequal_shares", 0.28), ("prices_differ", 0.28), ("prices_moved", 0.2)):
         if frac(merged, "sim", cls) < lim:
             return f"class {cls} below {lim:.0%} of runs"
     return None
